@@ -50,9 +50,17 @@ def gen_history(rng, files):
             ops.append(('path',))
         elif r < 0.90:
             ops.append(('filepaths-remove', rng.choice(names)))
-        elif r < 0.93:
+        elif r < 0.925:
             ops.append(('other', rng.choice(['name', 'comment', 'private', 'trackers'])))
+        elif r < 0.945:
+            ops.append(('exclude-regex', rng.choice([r'\.jpg$', r'f1', r'^nomatch$', r'sub/'])))
+        elif r < 0.96:
+            # a filter-list operation that fails half-way: the valid pattern is added, the invalid one raises; the same list is used again later
+            ops.append(('exclude-regex-extend-bad', rng.choice([r'\.jpg$', r'\.bin$', r'^nomatch$'])))
+            ops.append(rng.choice([('exclude-regex', r'\.txt$'), ('exclude-regex-clear',), ('exclude-regex', r'f0')]))
         elif r < 0.97:
+            ops.append(('exclude-regex-clear',))
+        elif r < 0.985:
             # a listed file changes its size on disk (same paths; the piece length usually stays the same), then the content is looked at again
             ops.append(('grow', rng.choice(names), rng.choice([1, 100, 3000, 20000])))
             ops.append(rng.choice([('path',), ('exclude', 'nomatch'), ('same-filters',), ('include', '*f0*')]))
@@ -75,13 +83,18 @@ def layout_key(t):
     return ('none',)
 
 
+def filters_key(t):
+    return (tuple(t.exclude_globs), tuple(r.pattern for r in t.exclude_regexs), tuple(t.include_globs), tuple(r.pattern for r in t.include_regexs))
+
+
 def run_impl(top, ops):
     t = torf.Torrent()
     out = []
-    tag = None          # (layout, piece length) the present hashes were generated for
+    tag = None          # (layout, piece length, filters) the present hashes were generated for
+    edited = False      # the file list was edited directly (files / filepaths removal) since the last path assignment
     for op in ops:
         before = layout_key(t)
-        did_layout = op[0] in ('path', 'exclude', 'include', 'clear-filters', 'same-filters')
+        did_layout = op[0] in ('path', 'exclude', 'include', 'clear-filters', 'same-filters', 'exclude-regex', 'exclude-regex-extend-bad', 'exclude-regex-clear')
         try:
             k = op[0]
             if k == 'path':
@@ -98,6 +111,12 @@ def run_impl(top, ops):
                 t.exclude_globs.append(op[1])
             elif k == 'include':
                 t.include_globs.append(op[1])
+            elif k == 'exclude-regex':
+                t.exclude_regexs.append(op[1])
+            elif k == 'exclude-regex-extend-bad':
+                t.exclude_regexs.extend([op[1], '[unclosed'])
+            elif k == 'exclude-regex-clear':
+                t.exclude_regexs.clear()
             elif k == 'clear-filters':
                 t.exclude_globs = ()
                 t.include_globs = ()
@@ -131,12 +150,25 @@ def run_impl(top, ops):
         except Exception as e:  # noqa
             res = ('err', sl.canon_exc(e))
         if op[0] == 'generate' and res == ('ok',) and 'pieces' in t.metainfo['info']:
-            tag = (layout_key(t), t.metainfo['info'].get('piece length'))
+            tag = (layout_key(t), t.metainfo['info'].get('piece length'), filters_key(t))
         viol = None
         info = t.metainfo['info']
         if 'pieces' in info:
-            if tag is None or tag != (layout_key(t), info.get('piece length')):
-                viol = ('stale-pieces', f'pieces present after {op} although layout/piece length changed since hashing')
+            if tag is None or tag != (layout_key(t), info.get('piece length'), filters_key(t)):
+                viol = ('stale-pieces', f'pieces present after {op} although layout / piece length / filters changed since hashing')
+        if op[0] in ('remove-file', 'filepaths-remove') and did_layout:
+            edited = True
+        elif op[0] == 'path' and res == ('ok',):
+            edited = False
+        if viol is None and t.path is not None and not edited:
+            # the file list is a function of the path and the current filters: compare with a fresh object
+            try:
+                fresh = torf.Torrent(path=t.path, exclude_globs=list(t.exclude_globs), exclude_regexs=[r.pattern for r in t.exclude_regexs],
+                                     include_globs=list(t.include_globs), include_regexs=[r.pattern for r in t.include_regexs])
+                if [str(f) for f in fresh.files] != [str(f) for f in t.files]:
+                    viol = ('filters-not-applied', f'after {op} the file list {[str(f) for f in t.files]} is not what path + filters {filters_key(t)} give: {[str(f) for f in fresh.files]}')
+            except torf.TorfError:
+                pass
         pl = info.get('piece length')
         if viol is None and t.piece_size_min > t.piece_size_max:
             viol = ('min-greater-than-max', f'piece_size_min {t.piece_size_min} > piece_size_max {t.piece_size_max} after {op}')
@@ -233,7 +265,7 @@ def run(ck, model_ok):
                 mres = sl.model_res(mr, lambda v: None)
                 msnap = (int(ms[0]), None if ms[1] == 'none' else int(ms[1]), ms[2] != 'none', int(ms[3]), int(ms[4]))
                 rr = ('ok', None) if r[0] == 'ok' else ('err', r[1][:1])
-                if layout_op and r[0] == 'err' and r[1][0] in ('ReadError', 'PathError', 'CommonPathError', 'ValueError'):
+                if layout_op and r[0] == 'err' and r[1][0] in ('ReadError', 'PathError', 'CommonPathError', 'ValueError', 'error'):
                     break    # the file-list operation itself failed before _set_files: outside this model
                 if mres == ('err', ('IOther',)):
                     break
